@@ -511,6 +511,10 @@ func (c *caseCtx) judgeSilence() {
 	comp := sp.typ + "." + strand
 	if !terminal[end] {
 		class := "no-timer-since-" + how
+		if strand == "unknown" {
+			// no delivered event left it without a timer: the timer's own expiry did
+			comp, class = sp.typ+".timeout", "no-timer-after-timer-expiry-in-"+end
+		}
 		what := "no restart timer is running (nothing happened during the last " + fmt.Sprint(steps-1-lastActivity) + " restart periods)"
 		if lastActivity >= steps-2 || !quiet {
 			class = "still-retransmitting-in-" + end
